@@ -177,7 +177,7 @@ func verifEventsEqual(got, want []vEvent) bool {
 // ---- transaction bodies ----
 
 type vTxOp struct {
-	kind int // 0 create emp, 1 create mgr, 2 update via emp store, 3 update via mgr store, 4 delete via emp store, 5 delete via mgr store, 6 create with blank id
+	kind int // 0 create emp, 1 create mgr, 2 update via emp store, 3 update via mgr store, 4 delete via emp store, 5 delete via mgr store, 6 create with blank id, 7 field-restricted update
 	slot int
 	name string
 }
@@ -227,9 +227,9 @@ func verifC07Body(nOps int, batch bool, faults bool, label string) {
 
 	ops := make([]vTxOp, nOps)
 	for k := range ops {
-		ops[k].kind = verifrt.Choose("op", 7)
+		ops[k].kind = verifrt.Choose("op", 8)
 		ops[k].slot = verifrt.Choose("slot", nSlots)
-		if ops[k].kind <= 3 || ops[k].kind == 6 {
+		if ops[k].kind <= 3 || ops[k].kind >= 6 {
 			ops[k].name = verifrt.String("opname", 1)
 		}
 	}
@@ -279,6 +279,12 @@ func verifC07Body(nOps int, batch bool, faults bool, label string) {
 			}
 		case 6:
 			opRejected[k] = true // blank id is never usable
+		case 7: // update restricted to the roles field: the name passed in is not written
+			if cur[j].kind == 0 || log.veto[EntityUpdated] {
+				opRejected[k] = true
+			} else {
+				want = verifExpectEvents(want, EntityUpdated, vIds[j], cur[j].name, cur[j].kind == 2)
+			}
 		}
 		if opRejected[k] {
 			bodyFails = true
@@ -326,6 +332,8 @@ func verifC07Body(nOps int, batch bool, faults bool, label string) {
 				err = mgr.DeleteById(ctx, id)
 			case 6:
 				err = env.emp.Create(ctx, &vEmp{Id: "", Name: op.name})
+			case 7:
+				err = env.emp.Update(ctx, &vEmp{Id: id, Name: op.name, Roles: []string{"r1"}}, MapFieldChecker{vFRoles: struct{}{}})
 			}
 			opErr[k] = err
 			if err != nil {
